@@ -133,7 +133,11 @@ def Send.client (m : Send) (f : Frame) : Verdict Send :=
 
 /-- the peer sends a frame: update its own books -/
 def Send.peer (m : Send) : PFrame → Send
-  | .settings vals => { m with pending := m.pending ++ [vals] }
+  | .settings vals =>
+    -- a SETTINGS_INITIAL_WINDOW_SIZE above 2^31-1 is the peer's own protocol violation: the
+    -- client owes a FLOW_CONTROL_ERROR, not an acknowledgement (RFC 9113 section 6.5.2)
+    if vals.any (fun p => p.1 == sInitialWindowSize && decide (p.2 > 2147483647)) then m
+    else { m with pending := m.pending ++ [vals] }
   | .settingsAck => m
   | .windowUpdate id inc =>
     if id = 0 then { m with connWin := m.connWin + inc }
